@@ -136,7 +136,41 @@ class Rec(ISLaSolver):
         return r
 
 
-def run_cli(argv):
+class Budget(BaseException):
+    """raised by the interval timer: the invocation exceeded its wall budget (result: inconclusive)"""
+
+
+BUDGET_S = float(os.environ.get("VERIF_C19_BUDGET", "25"))      # every CLI invocation / library question
+BUDGET_SLOW_S = float(os.environ.get("VERIF_C19_BUDGET_SLOW", "12"))   # mutate / repair (their own -t is 2 s)
+INCONCLUSIVE = []          # argv keys cut by the budget in this run
+
+
+def _on_alarm(signum, frame):
+    raise Budget()
+
+
+def budgeted(seconds, fn, *a):
+    """run fn(*a) under a wall-clock budget (ITIMER_REAL; the harness drives the CLI from the main thread).
+    Returns (True, value) or (False, None) when the budget fired."""
+    import signal
+    old = signal.signal(signal.SIGALRM, _on_alarm)
+    try:
+        try:
+            signal.setitimer(signal.ITIMER_REAL, seconds)
+            v = fn(*a)
+            signal.setitimer(signal.ITIMER_REAL, 0)
+            return True, v
+        except Budget:
+            return False, None
+        finally:
+            signal.setitimer(signal.ITIMER_REAL, 0)
+    except Budget:                      # fired between the two cancellations
+        return False, None
+    finally:
+        signal.signal(signal.SIGALRM, old)
+
+
+def _run_cli(argv):
     so, se = io.StringIO(), io.StringIO()
     Rec.log, Rec.depth = [], 0
     old = cli.ISLaSolver
@@ -147,11 +181,24 @@ def run_cli(argv):
             ex = ("exit", 0)
         except SystemExit as e:
             ex = ("exit", 0 if e.code is None else e.code)
+        except Budget:
+            raise
         except BaseException as e:       # noqa: the escaping exception IS the observable
             ex = ("tb", e)
     finally:
         cli.ISLaSolver = old
     return ex, so.getvalue(), se.getvalue(), list(Rec.log)
+
+
+def run_cli(argv):
+    """one in-process invocation under the budget; ("budget", None) = inconclusive: never compared, never a violation"""
+    slow = argv and argv[0] in ("mutate", "repair")
+    ok, v = budgeted(BUDGET_SLOW_S if slow else BUDGET_S, _run_cli, argv)
+    if not ok:
+        cli.ISLaSolver = ISLaSolver
+        INCONCLUSIVE.append([os.path.basename(x) if os.sep in str(x) else x for x in argv])
+        return ("budget", None), "", "", []
+    return v
 
 
 def stderr_kind(se):
@@ -871,9 +918,26 @@ def _run(run, rng, thorough, root, known):
     hist_cmd, hist_exit, hist_k = {}, {}, {}
     prop_fail = []          # property clauses violated on the implementation (spec-side), not explained by a known class
     t0 = time.time()
+    del INCONCLUSIVE[:]
+    slow = []
     for k, case in enumerate(cases):
-        tb, info = fill_tables(case, fs)
-        ex, so, se, log = run_cli(case.argv())
+        if k:
+            slow.append((round(time.time() - tcase, 1), " ".join(map(str, cases[k - 1].key()))))
+        tcase = time.time()
+        okb, v = budgeted(BUDGET_S, fill_tables, case, fs)
+        ex = ("budget", None)
+        if okb:
+            tb, info = v
+            ex, so, se, log = run_cli(case.argv())
+        else:
+            INCONCLUSIVE.append(list(case.key()))
+        if ex[0] == "budget":
+            # inconclusive: counted, not compared with the model, no property clause evaluated
+            mods.append(f"Module C{k}. Definition ok := true. End C{k}.")
+            meta.append({"argv": list(case.key()), "tag": case.tag, "exit": "inconclusive (budget)", "stdout": "",
+                         "stderr_kind": "SeNone", "stderr_tail": "", "class": 0})
+            hist_exit["inconclusive (budget)"] = hist_exit.get("inconclusive (budget)", 0) + 1
+            continue
         add_recorded(tb, case, log)
         sk = stderr_kind(se)
         ek = expect_class(case, fs, ex, log) if ex[0] == "tb" else 0
@@ -920,6 +984,8 @@ def _run(run, rng, thorough, root, known):
                     inp_path = fs.text(f"sol_{k}_{j}.txt", line + "\n")
                 chk = Case("check", spec_files + [inp_path], g=case.g, cs=case.cs or ([] if any(p.endswith(".isla") for p in spec_files) else ["true"]))
                 ex2, so2, se2, _ = run_cli(chk.argv())
+                if ex2[0] == "budget":
+                    continue
                 run.count(("solve->check", case.key(), j), True)
                 word = line if not case.tree else str(DerivationTree.from_parse_tree(line))
                 explained = (ex2[0] == "tb" and KNAMES.get(expect_class(chk, fs, ex2, [])) in known) or \
@@ -942,11 +1008,14 @@ def _run(run, rng, thorough, root, known):
             inp_path = fs.text(f"parsed_{k}.json", so)
             chk = Case("check", spec_files + [inp_path], g=case.g, cs=case.cs)
             ex2, so2, _, _ = run_cli(chk.argv())
+            if ex2[0] == "budget":
+                continue
             run.count(("parse->check", case.key()), True)
             if ex2 != ("exit", 0):
                 prop_fail.append({"clause": "the JSON tree emitted by parse is accepted by check",
                                   "witness": {"parse": meta[-1], "check_exit": str(ex2), "check_stdout": so2}})
     run.cov["impl_seconds"] = round(time.time() - t0, 1)
+    run.cov["slowest_invocations"] = sorted(slow, reverse=True)[:8]
     run.cov["histogram_commands"] = hist_cmd
     run.cov["histogram_outcomes"] = hist_exit
     run.cov["histogram_traceback_classes"] = hist_k
@@ -974,16 +1043,20 @@ def _run(run, rng, thorough, root, known):
     # ---- subprocess smoke subset: the process-level observables agree with the in-process ones ----
     smoke = [j for j, c in enumerate(cases) if c.tag in ("A check g=ok c=ok i=ok", "A check g=ok c=ok i=EMPTY", "A check g=malformed c=ok i=ok",
                                                        "A check g=missing c=ok i=ok", "A check g=ok c=ok i=sem", "A solve g=ok c=ok",
-                                                       "A check g=ok c=malformed i=ok", "numeric -i (valid JSON)", "n=1")][:10 if not thorough else 40]
+                                                       "A check g=ok c=malformed i=ok", "numeric -i (valid JSON)", "n=1")
+             and not meta[j]["exit"].startswith("inconclusive")][:10 if not thorough else 40]
     env = dict(os.environ, PYTHONPATH=os.path.join(lib.REPO, "src"), PYTHONHASHSEED="0")
     nsmoke = 0
     with_procs = [(j, subprocess.Popen([sys.executable, "-W", "ignore", "-m", "isla"] + cases[j].argv(), env=env, cwd=root,
                                        stdout=subprocess.PIPE, stderr=subprocess.PIPE, text=True)) for j in smoke]
+    deadline = time.time() + 90          # wall budget of the whole subprocess batch (they run concurrently)
     for j, pr in with_procs:
         try:
-            so, se = pr.communicate(timeout=120)
+            so, se = pr.communicate(timeout=max(0.5, deadline - time.time()))
         except subprocess.TimeoutExpired:
-            pr.kill(); so, se = "", "TIMEOUT"
+            pr.kill(); pr.communicate()
+            INCONCLUSIVE.append(["python -m isla"] + list(cases[j].key()))
+            continue
         nsmoke += 1
         inproc = meta[j]["exit"]
         has_tb = "Traceback (most recent call last)" in se
@@ -996,6 +1069,10 @@ def _run(run, rng, thorough, root, known):
         if not same:
             disagreements.append(dict(meta[j], subprocess_exit=pr.returncode, subprocess_stderr=se[-300:], model="(subprocess vs in-process)"))
     run.cov["subprocess_invocations"] = nsmoke
+    run.cov["inconclusive"] = {"count": len(INCONCLUSIVE), "budget_seconds": {"default": BUDGET_S, "mutate/repair": BUDGET_SLOW_S},
+                               "rule": "an invocation (in-process, library question, or subprocess) cut by its wall budget is not "
+                                       "compared with the model and no property clause is evaluated on it; never a violation",
+                               "argv": INCONCLUSIVE[:40]}
 
     # ---- verdicts ----
     if prop_fail:
@@ -1082,6 +1159,8 @@ def replay(path):
         argv = [a if not (isinstance(a, str) and os.path.exists(fs.p(a)) or a in ("nonexistent.txt", "adir")) else fs.p(a) for a in w["argv"]]
         argv = [os.path.join(root, "nodir", "o.txt") if a == "o.txt" else a for a in argv]
         ex, so, se, _ = run_cli(argv)
+        if ex[0] == "budget":
+            print("inconclusive: the invocation exceeded its budget"); return 0
         exs = f"exit {ex[1]}" if ex[0] == "exit" else f"traceback {type(ex[1]).__name__}"
         print("argv:", " ".join(map(str, w["argv"])))
         print("now :", exs, "| stdout:", so[:120].replace("\n", "\\n"), "| stderr:", se[-160:].replace("\n", " | "))
